@@ -125,6 +125,34 @@ func genSplice(t *rapid.T, allowForeign bool) ref.Splice {
 	s.Descs = []ref.SpliceDesc{}
 	for k := 0; k < nd; k++ {
 		d := genSegDesc(t, allowForeign)
+		if k > 0 && !long && rapid.IntRange(0, 4).Draw(t, "sibling") == 0 {
+			// a sibling of an earlier descriptor: same type, event id and segment numbers, differing (if at all) in one other field
+			if prev := s.Descs[rapid.IntRange(0, k-1).Draw(t, "sibling-of")]; !prev.Foreign {
+				sib := prev
+				sib.Comps = append([]ref.SegOffset{}, prev.Comps...)
+				sib.MID = append([]ref.SegUPID{}, prev.MID...)
+				sib.UPID = append(ref.Hex{}, prev.UPID...)
+				switch rapid.IntRange(0, 5).Draw(t, "sibling-diff") {
+				case 0:
+					if sib.UPIDType != 0x0D {
+						sib.UPID = genBytes(t, 0, 12, "sibling-upid")
+					}
+				case 1:
+					sib.Duration = genBits(t, 40, "sibling-duration")
+				case 2:
+					sib.Web, sib.Archive = !sib.Web, !sib.Archive
+				case 3:
+					sib.Dur = !sib.Dur
+				case 4:
+					sib.Cancel = !sib.Cancel
+				}
+				// descriptor_length is one byte
+				if over := len(sib.Bytes()) - 2 - 255; over > 0 && len(sib.UPID) >= over {
+					sib.UPID = sib.UPID[:len(sib.UPID)-over]
+				}
+				d = sib
+			}
+		}
 		if long && !d.Foreign && !d.Cancel && d.UPIDType != 0x0D {
 			// a section longer than 1023 bytes: section_length is a 12-bit field
 			d.UPID = genBytes(t, 200, 240, "long-upid")
@@ -338,6 +366,12 @@ func spliceNT(m *ref.Splice) (bool, []string) {
 // the model is not expressible through the API (foreign descriptors, insert
 // components, protocol version / cw_index / encryption algorithm).
 func buildSpliceAPI(m *ref.Splice, noise uint32) scte35.SCTE35 {
+	return buildSpliceAPIAlloc(m, noise, clone)
+}
+
+// buildSpliceAPIAlloc is buildSpliceAPI with the caller choosing where the byte
+// slices handed to the setters live (see c09State.window).
+func buildSpliceAPIAlloc(m *ref.Splice, noise uint32, alloc func([]byte) []byte) scte35.SCTE35 {
 	nz := func(bit uint) bool { return noise&(1<<bit) != 0 }
 	s := scte35.CreateSCTE35()
 	if nz(0) {
@@ -477,12 +511,12 @@ func buildSpliceAPI(m *ref.Splice, noise uint32) scte35.SCTE35 {
 			for _, e := range w.MID {
 				u := scte35.CreateUPID()
 				u.SetUPIDType(scte35.SegUPIDType(e.Type))
-				u.SetUPID(clone(e.Body))
+				u.SetUPID(alloc(e.Body))
 				ms = append(ms, u)
 			}
 			d.SetMID(ms)
 		} else {
-			d.SetUPID(clone(w.UPID))
+			d.SetUPID(alloc(w.UPID))
 		}
 		if nz(19) {
 			d.SetTypeID(0x34)
